@@ -40,7 +40,12 @@ def run_one(m, repo):
     if src.count(m['old']) != 1:
         return {"id": m['id'], "result": "stale", "line": "%-32s PATTERN matches %d times (corpus needs updating)" % (m['id'], src.count(m['old']))}
     try:
-        open(path, 'w').write(src.replace(m['old'], m['new']))
+        mutated = src.replace(m['old'], m['new'])
+        if 'extra_old' in m:  # a second edit in the same file
+            if mutated.count(m['extra_old']) != 1:
+                return {"id": m['id'], "result": "stale", "line": "%-32s second PATTERN matches %d times (corpus needs updating)" % (m['id'], mutated.count(m['extra_old']))}
+            mutated = mutated.replace(m['extra_old'], m['extra_new'])
+        open(path, 'w').write(mutated)
         env = dict(os.environ, VERIF_REPO=repo, GOVC_WORKERS=str(max(2, (os.cpu_count() or 4) // (2 * jobs))))
         r = subprocess.run([os.path.join(V, 'bin/govc'), 'func', '-t', '25', m['pkg'], m['func']], capture_output=True, text=True, env=env)
         out = r.stdout + r.stderr
